@@ -15,7 +15,9 @@ import (
 	"os"
 	"path/filepath"
 	"sort"
+	"strings"
 	"sync"
+	"time"
 
 	"github.com/dolthub/dolt/go/store/chunks"
 	"github.com/dolthub/dolt/go/store/constants"
@@ -36,6 +38,7 @@ type Op struct {
 }
 
 type Case struct {
+	Mode string `json:"mode"` // "" = directory store (fileManifest), "journal" = journaling store (ChunkJournal)
 	N    int   `json:"n"`    // clients
 	Cap  int   `json:"cap"`  // memtable capacity in chunks
 	Univ []int `json:"univ"` // chunk ids of the universe
@@ -144,15 +147,53 @@ func tableChunks(ctx context.Context, dir, name string, univ []int) []int {
 	return found
 }
 
+// lockTimeout recognises the spurious failure of the 100 ms flock timeout of
+// fileManifest under machine load; it is never an observation.
+func lockTimeout(msg string) bool {
+	return strings.Contains(msg, "timed out reading database manifest") || strings.Contains(msg, "lock timeout")
+}
+
 func Run(raw json.RawMessage) (any, error) {
 	var c Case
 	if err := json.Unmarshal(raw, &c); err != nil {
 		return nil, err
 	}
+	var o any
+	var err error
+	for attempt := 0; attempt < 5; attempt++ {
+		retry := false
+		if c.Mode == "journal" {
+			var jo JObs
+			jo, err = runJournal(c)
+			o = jo
+			for _, s := range jo.Steps {
+				retry = retry || lockTimeout(s.Err)
+			}
+		} else {
+			var do Obs
+			do, err = runDir(c)
+			o = do
+			for _, s := range do.Steps {
+				retry = retry || lockTimeout(s.Err)
+			}
+		}
+		if err != nil && lockTimeout(err.Error()) {
+			retry = true
+		}
+		if !retry {
+			break
+		}
+		time.Sleep(time.Duration(50*(attempt+1)) * time.Millisecond)
+	}
+	return o, err
+}
+
+func runDir(c Case) (Obs, error) {
+	var o Obs
 	ctx := context.Background()
 	dir, err := os.MkdirTemp("/tmp", "c02-")
 	if err != nil {
-		return nil, err
+		return o, err
 	}
 	defer os.RemoveAll(dir)
 
@@ -180,13 +221,12 @@ func Run(raw json.RawMessage) (any, error) {
 	for i := range clients {
 		st, err := open()
 		if err != nil {
-			return nil, err
+			return o, err
 		}
 		clients[i] = st
 		defer st.Close()
 	}
 
-	var o Obs
 	for _, op := range c.Ops {
 		st := clients[op.C]
 		var s Step
@@ -202,7 +242,7 @@ func Run(raw json.RawMessage) (any, error) {
 		case "commit":
 			self, err := st.Root(ctx)
 			if err != nil {
-				return nil, err
+				return o, err
 			}
 			res := func(id int) hash.Hash {
 				if id < 0 {
@@ -220,11 +260,11 @@ func Run(raw json.RawMessage) (any, error) {
 				s.Res = 1
 			}
 		default:
-			return nil, fmt.Errorf("unknown op %q", op.Op)
+			return o, fmt.Errorf("unknown op %q", op.Op)
 		}
 		r, err := st.Root(ctx)
 		if err != nil {
-			return nil, err
+			return o, err
 		}
 		s.CRoot = rootID(r)
 
@@ -234,14 +274,14 @@ func Run(raw json.RawMessage) (any, error) {
 			mi, perr := nbs.ParseManifest(f)
 			f.Close()
 			if perr != nil {
-				return nil, perr
+				return o, perr
 			}
 			s.DRoot = rootID(mi.GetRoot())
 			for i := 0; i < mi.NumTableSpecs(); i++ {
 				s.DSpecs = append(s.DSpecs, tableChunks(ctx, dir, mi.GetTableSpecInfo(i).GetName(), c.Univ))
 			}
 		} else if !os.IsNotExist(err) {
-			return nil, err
+			return o, err
 		}
 
 		// a fresh open of the directory
@@ -254,7 +294,7 @@ func Run(raw json.RawMessage) (any, error) {
 			h, err := fr.Root(ctx)
 			if err != nil {
 				fr.Close()
-				return nil, err
+				return o, err
 			}
 			s.FRoot = rootID(h)
 			s.FHas = []int{}
@@ -262,14 +302,171 @@ func Run(raw json.RawMessage) (any, error) {
 				has, err := fr.Has(ctx, chunkOf(id).Hash())
 				if err != nil {
 					fr.Close()
-					return nil, err
+					return o, err
 				}
 				if has {
 					s.FHas = append(s.FHas, id)
 				}
 			}
 			if err := fr.Close(); err != nil {
-				return nil, err
+				return o, err
+			}
+		}
+		o.Steps = append(o.Steps, s)
+	}
+	return o, nil
+}
+
+// ---------------------------------------------------------------------------
+// Journaling store (nbs.NewLocalJournalingStore): ONE writer, holding the
+// exclusive LOCK for its lifetime; ChunkJournal.Update is the manifest step.
+
+type JStep struct {
+	Res   int    `json:"res"`   // 0 ok/true, 1 false, 2 dangling-ref error, 3 other error, 4 read-only error
+	Err   string `json:"err,omitempty"`
+	CRoot int    `json:"croot"` // the writer's Root() (probe: the second handle's Root())
+	Has   []int  `json:"has"`   // chunks of the universe the writer Has (probe: unchanged writer)
+	RO    bool   `json:"ro"`    // probe: the second handle opened read-only
+}
+
+type JObs struct {
+	Steps []JStep `json:"steps"`
+}
+
+func runJournal(c Case) (JObs, error) {
+	var o JObs
+	ctx := context.Background()
+	dir, err := os.MkdirTemp("/tmp", "c02-j-")
+	if err != nil {
+		return o, err
+	}
+	defer os.RemoveAll(dir)
+	idOf := map[hash.Hash]int{{}: 0}
+	for _, id := range c.Univ {
+		idOf[chunkOf(id).Hash()] = id
+	}
+	rootID := func(h hash.Hash) int {
+		if id, ok := idOf[h]; ok {
+			return id
+		}
+		return unknownID
+	}
+	hashOf := func(id int) hash.Hash {
+		if id == 0 {
+			return hash.Hash{}
+		}
+		return chunkOf(id).Hash()
+	}
+	open := func() (*nbs.NomsBlockStore, error) {
+		return nbs.NewLocalJournalingStore(ctx, constants.FormatDefaultString, dir, nbs.NewUnlimitedMemQuotaProvider(), false, func(error) {})
+	}
+	st, err := open()
+	if err != nil {
+		return o, err
+	}
+	defer func() {
+		if st != nil {
+			st.Close()
+		}
+	}()
+	if _, err := st.Root(ctx); err != nil { // forces the lazy load
+		return o, err
+	}
+	for _, op := range c.Ops {
+		var s JStep
+		switch op.Op {
+		case "put":
+			if err := st.Put(ctx, chunkOf(op.X), noAddrs); err != nil {
+				s.Res, s.Err = 3, err.Error()
+			}
+		case "rebase":
+			if err := st.Rebase(ctx); err != nil {
+				s.Res, s.Err = 3, err.Error()
+			}
+		case "commit":
+			self, err := st.Root(ctx)
+			if err != nil {
+				return o, err
+			}
+			res := func(id int) hash.Hash {
+				if id < 0 {
+					return self
+				}
+				return hashOf(id)
+			}
+			ok, err := st.Commit(ctx, res(op.Cur), res(op.Last))
+			switch {
+			case err != nil && errors.Is(err, nbs.ErrDanglingRef):
+				s.Res, s.Err = 2, err.Error()
+			case err != nil:
+				s.Res, s.Err = 3, err.Error()
+			case !ok:
+				s.Res = 1
+			}
+		case "reopen":
+			// graceful close, then a fresh journaling open becomes the writer
+			cerr := st.Close()
+			st = nil
+			if cerr != nil {
+				s.Res, s.Err = 3, "close: "+cerr.Error()
+			}
+			st, err = open()
+			if err != nil {
+				return o, err
+			}
+			if _, err := st.Root(ctx); err != nil {
+				return o, err
+			}
+			if st.AccessMode() != chunks.ExclusiveAccessMode_Exclusive {
+				s.Res, s.Err = 3, s.Err+" reopen is not exclusive"
+			}
+		case "probe":
+			// a second handle while the writer is open
+			p, err := open()
+			if err != nil {
+				s.Res, s.Err = 3, "probe open: "+err.Error()
+				break
+			}
+			pr, err := p.Root(ctx)
+			if err != nil {
+				s.Res, s.Err = 3, "probe root: "+err.Error()
+				p.Close()
+				break
+			}
+			s.RO = p.AccessMode() == chunks.ExclusiveAccessMode_ReadOnly
+			s.CRoot = rootID(pr)
+			perr := p.Put(ctx, chunkOf(op.X), noAddrs)
+			var ok bool
+			if perr == nil {
+				ok, perr = p.Commit(ctx, chunkOf(op.X).Hash(), pr)
+			}
+			switch {
+			case perr != nil && strings.Contains(perr.Error(), "read only"):
+				s.Res, s.Err = 4, perr.Error()
+			case perr != nil:
+				s.Res, s.Err = 3, perr.Error()
+			case !ok:
+				s.Res = 1
+			}
+			p.Close()
+		default:
+			return o, fmt.Errorf("unknown op %q", op.Op)
+		}
+		if op.Op != "probe" {
+			r, err := st.Root(ctx)
+			if err != nil {
+				return o, err
+			}
+			s.CRoot = rootID(r)
+		}
+		s.Has = []int{}
+		for _, id := range c.Univ {
+			has, err := st.Has(ctx, chunkOf(id).Hash())
+			if err != nil {
+				return o, err
+			}
+			if has {
+				s.Has = append(s.Has, id)
 			}
 		}
 		o.Steps = append(o.Steps, s)
